@@ -124,6 +124,46 @@ package vm
 //@ call (*refCounter).Remove requires[popped] arg1 == elem && refd(arr) && ncalls(refCounter) == 0
 //@ ensures[released] ncalls(refCounter) == 0 ==> !refd(old(v.estack.elems[len(v.estack.elems)-1].value))
 
+// SETITEM on an Array or Struct: the value operand is popped without releasing its
+// references; on every way out of the arm that is not a FAULT - stored, or a catchable
+// out-of-range exception thrown - exactly one release has been made on its account (of the value
+// itself, or of the element it replaces in a referenced collection), on top of the release/count
+// pair of the struct clone.
+//@ case SETITEM
+//@ requires op == opcode.SETITEM && v.getPrice == nil && wfStack(v.estack) && len(v.estack.elems) >= 3 && (is(v.estack.elems[len(v.estack.elems)-3].value, *stackitem.Array) || is(v.estack.elems[len(v.estack.elems)-3].value, *stackitem.Struct))
+//@ call (*VM).throw requires[released] ncalls("(*refCounter).Remove") == 1 + ncalls("(*refCounter).Add")
+//@ ensures[released] ncalls("(*refCounter).Remove") == 1 + ncalls("(*refCounter).Add")
+
+// VALUES copies the values of a collection into a new array. Copying out of a collection that is
+// still referenced: every value put into the copy is counted (the clone, for a struct). Copying out
+// of one that is not: the values were counted through it and stay so, only a struct is swapped
+// for its clone in the count. (The loop bodies are the yield functions of the range-over-func
+// loops of cpValues.)
+//@ func (*VM).cpValues$1
+//@ may-panic
+//@ opt frame off
+//@ call (*refCounter).Add requires[stored] arg1 == cloned
+//@ ensures[counted] ncalls("(*refCounter).Add") == 1 && ncalls("(*refCounter).Remove") == 0
+//@ func (*VM).cpValues$2
+//@ may-panic
+//@ opt frame off
+//@ call (*refCounter).Add requires[stored] arg1 == cloned
+//@ call (*refCounter).Remove requires[swapped] arg1 == it
+//@ ensures[balanced] ncalls("(*refCounter).Add") == ncalls("(*refCounter).Remove") && ncalls("(*refCounter).Add") <= 1
+
+//@ func validateMapKey
+//@ opt uncovered 1
+//@ requires[typeinv] stackitem.wfItem(key.value)
+//@ requires[nopanic] stackitem.validKey(key.value)
+
+// A struct operand is replaced by its clone (a new item; nothing existing is written).
+//@ func cloneIfStruct
+//@ assumed
+//@ pure
+//@ ensures[same] !is(item, *stackitem.Struct) ==> result0 == item && !result1
+//@ ensures[clone] is(item, *stackitem.Struct) ==> result1 && is(result0, *stackitem.Struct)
+//@ ensures[wf] stackitem.wfItem(item) ==> stackitem.wfItem(result0)
+
 // ---- script loading (C15: who the calling script is; C16: which flags the new context gets)
 //@ prop C15,C16
 //@ func (*Context).ScriptHash
